@@ -156,7 +156,7 @@ func runC13(p *core.Prog, r *core.Report) {
 		for _, name := range []string{"Segmenter.firstRange", "Segmenter.followingRange"} {
 			fn := p.Func(pkgBlock, name)
 			r.Touch(core.FuncName(fn))
-			calls := core.FindInstrs(fn, core.IsCallTo(newRange))
+			calls := core.FindInstrsIn(fn, core.IsCallTo(newRange))
 			// the range may be built by a helper method of the segmenter (the common tail of both builders): the helper's
 			// parameters are then read as the arguments of the call in this builder
 			deparam := func(v ssa.Value) ssa.Value { return v }
